@@ -374,6 +374,32 @@ def promoted_rvalue(crate, body, desc):
     return None
 
 
+GROW = {"push", "push_back", "push_front", "extend", "extend_from_slice", "insert", "append"}
+
+
+def inflows(body):
+    """local -> operands stored into it through a `&mut` borrow handed to a growing call (`v.push(x)`, `v.extend(it)`, ...): the
+    values a collection built step by step holds, which its defining `Vec::new()` says nothing about."""
+    c = getattr(body, "_inflows", None)
+    if c is not None:
+        return c
+    mutref = {}
+    for i, j, s_ in body.assigns():
+        r = s_["r"]
+        if r["k"] == "ref" and r.get("bk") == "mut" and not s_["p"].get("p") and not r["p"].get("p"):
+            mutref[s_["p"]["l"]] = r["p"]["l"]
+    c = {}
+    for i, t in body.calls():
+        f = t.get("f")
+        if f is None or f["name"] not in GROW or len(t["args"]) < 2:
+            continue
+        pl = operand_place(t["args"][0])
+        if pl is not None and not pl.get("p") and pl["l"] in mutref and len(body.defs_of(pl["l"])) == 1:
+            c.setdefault(mutref[pl["l"]], []).extend(t["args"][1:])
+    body._inflows = c
+    return c
+
+
 def leaves(body, op, depth=40, adt=False):
     """Backward data slice of an operand down to its leaf sources.  Returns a set of strings:
          'field:<a.b.c>'   read of a field path rooted at an argument / captured place
@@ -429,6 +455,8 @@ def leaves(body, op, depth=40, adt=False):
         if not ds:
             out.add("unknown:undef")
             return
+        for a in inflows(body).get(l, ()):
+            walk(a, d + 1)
         for bb, idx, r in ds:
             if idx == "term":
                 f = r.get("f")
@@ -471,6 +499,8 @@ def slice_locals(body, op, depth=40):
         if l in seen:
             return
         seen.add(l)
+        for a in inflows(body).get(l, ()):
+            walk(a, d + 1)
         for bb, idx, r in body.defs_of(l):
             if idx == "term":
                 for a in r.get("args", []):
